@@ -111,18 +111,21 @@ macro_rules! c20_copy {
                 i += 1;
             }
             let old_len = heap.inner.byte_len;
-            let src_tail = heap.scan_slice_to_str(8).tail_idx;
+            // tail of the source, by the index arithmetic checked in c20_roundtrip_*
+            let src_tail = Heap::pstr_tail_idx(8 + L);
             let r = heap.copy_pstr_within(8);
             match r {
                 Ok(tail) => {
                     assert!(tail == src_tail);
-                    let scan = heap.scan_slice_to_str(old_len);
-                    assert!(scan.string.len() == L);
+                    // the copy: same bytes, NUL-terminated, and its own tail cell is exactly the
+                    // new end of the heap
                     let j: usize = kani::any();
                     kani::assume(j < L);
-                    assert!(scan.string.as_bytes()[j] == b[j]);
-                    // the copy's own tail cell is exactly the new end of the heap
-                    assert!(heap_index!(scan.tail_idx) == heap.inner.byte_len);
+                    assert!(unsafe { *heap.inner.ptr.add(old_len + j) } == b[j]);
+                    assert!(unsafe { *heap.inner.ptr.add(old_len + L) } == 0);
+                    let cells = if L % 8 == 7 { L / 8 + 2 } else { L / 8 + 1 };
+                    assert!(heap.inner.byte_len == old_len + 8 * cells);
+                    assert!(heap_index!(Heap::pstr_tail_idx(old_len + L)) == heap.inner.byte_len);
                 }
                 Err(_) => assert!(false),
             }
@@ -170,3 +173,46 @@ macro_rules! c20_last {
 }
 c20_last!(c20_last_char_3, 3, 20);
 c20_last!(c20_last_char_7, 7, 20);
+
+
+// the last character is multi-byte: the tail must still be found from the end of the *bytes*
+macro_rules! c20_last_mb {
+    ($name:ident, $P:expr, $tail:expr) => {
+        #[kani::proof]
+        #[kani::unwind(20)]
+        fn $name() {
+            const P: usize = $P;                 // ASCII prefix length
+            let tailb: &[u8] = $tail;            // UTF-8 bytes of the last character
+            let l = P + tailb.len();
+            let sc = l / 8 + 2;
+            let mut heap = mk_heap(sc + 2, sc + 1);
+            let b: [u8; P] = kani::any();
+            let mut i = 0;
+            while i < P {
+                kani::assume(b[i] != 0 && b[i] < 128);
+                unsafe { *heap.inner.ptr.add(8 + i) = b[i] };
+                i += 1;
+            }
+            let mut k = 0;
+            while k < tailb.len() {
+                unsafe { *heap.inner.ptr.add(8 + P + k) = tailb[k] };
+                k += 1;
+            }
+            i = l;
+            while i < 8 * sc {
+                unsafe { *heap.inner.ptr.add(8 + i) = 0 };
+                i += 1;
+            }
+            let want_c = std::str::from_utf8(tailb).unwrap().chars().next().unwrap();
+            let (c, next) = heap.last_str_char_and_tail(8 + P);
+            assert!(c == want_c);
+            // tail cell: after the string bytes, their NUL padding, and the extra zero cell when
+            // only one NUL fitted
+            let cells = if l % 8 == 7 { l / 8 + 2 } else { l / 8 + 1 };
+            assert!(next == heap_loc_as_cell!(1 + cells));
+            std::mem::forget(heap);
+        }
+    };
+}
+c20_last_mb!(c20_last_char_multibyte_7, 3, &[0xF0, 0x9F, 0x98, 0x80]);
+c20_last_mb!(c20_last_char_multibyte_5, 3, &[0xC3, 0xA9]);
